@@ -493,6 +493,14 @@ func reachesHTTP(c *Ctx, f *ssa.Function, depth int) bool {
 // flowsToRequest: forward def-use closure of the parameter reaches a store into a struct field,
 // a map update or a call argument that leaves the function.
 func flowsToRequest(c *Ctx, f *ssa.Function, prm *ssa.Parameter) (bool, string) {
+	ok, _, how := flowsToRequestD(c, f, prm, 0)
+	return ok, how
+}
+
+// flowsToRequestD follows the uses of a parameter: into a fee-limit field / body entry (fee), or into a value
+// the function returns (ret). A module helper that receives the value is entered (two levels): its result is
+// followed in the caller only when the value reaches a fee field or the result inside the helper.
+func flowsToRequestD(c *Ctx, f *ssa.Function, prm *ssa.Parameter, depth int) (fee bool, ret bool, how string) {
 	seen := map[ssa.Value]bool{}
 	work := []ssa.Value{prm}
 	for len(work) > 0 {
@@ -516,7 +524,7 @@ func flowsToRequest(c *Ctx, f *ssa.Function, prm *ssa.Parameter) (bool, string) 
 						st := fa.X.Type().Underlying().(*types.Pointer).Elem().Underlying().(*types.Struct)
 						name := st.Field(fa.Field).Name()
 						if strings.Contains(strings.ToLower(name), "fee") || name == "Fixed" || name == "FixedMsat" {
-							return true, "stored into field " + name
+							return true, ret, "stored into field " + name
 						}
 						// spilled parameter: follow loads of the cell
 						work = append(work, fa.X)
@@ -534,22 +542,33 @@ func flowsToRequest(c *Ctx, f *ssa.Function, prm *ssa.Parameter) (bool, string) 
 					if k, ok := x.Key.(*ssa.Const); ok {
 						ks := strings.ToLower(ConstString(k))
 						if strings.Contains(ks, "fee") {
-							return true, "stored under map key " + ConstString(k)
+							return true, ret, "stored under map key " + ConstString(k)
 						}
 					}
 				}
+			case *ssa.Return:
+				ret = true
 			case ssa.CallInstruction:
 				d := c.P.Describe(x)
-				if d.Static != nil && c.moduleFn(d.Static) && d.Static.Signature.Recv() != nil {
-					// helper of the same client (e.g. feeLimit(maxFee)): follow its result
-					if cv, ok := x.(ssa.Value); ok {
-						work = append(work, cv)
+				if d.Static != nil && c.moduleFn(d.Static) && d.Static.Blocks != nil && depth < 2 {
+					// helper (e.g. feeLimit(maxFee)): the value must reach a fee field or the result inside it;
+					// then its result is followed here
+					for i, a := range x.Common().Args {
+						if a != v || i >= len(d.Static.Params) {
+							continue
+						}
+						f2, r2, _ := flowsToRequestD(c, d.Static, d.Static.Params[i], depth+1)
+						if f2 || r2 {
+							if cv, ok := x.(ssa.Value); ok {
+								work = append(work, cv)
+							}
+						}
 					}
 				}
 			}
 		}
 	}
-	return false, "no use of " + prm.Name() + " reaches a fee-limit field or body entry of the request"
+	return false, ret, "no use of " + prm.Name() + " reaches a fee-limit field or body entry of the request"
 }
 
 // c02MeltQuoteCreation: R7.
